@@ -89,6 +89,12 @@ def _fill_split(tree, path, qual, filler):
         if d.setdefault("input", form) != form:
             raise Untranslatable("%s: the input mask is computed differently with and without keep_acs" % qual, None, path)
         args = tgt[2]
+        if filler == "uniform_fill" and len(args) < 5:
+            names = ["nonzero_mask_count", "nrow", "ncol", "mask", "rng"]
+            args = tuple(X.arg(tgt, i, n) for i, n in enumerate(names))
+            if any(a_ is None for a_ in args):
+                raise Untranslatable("%s: uniform_fill arguments outside subset" % qual, None, path)
+            tgt_args_from_kw = True
         elig = args[6] if filler == "gaussian_fill" else args[3]
         want = m if keep else ("set", MASK, REGION, X.FALSE)
         if elig != want:
@@ -110,8 +116,9 @@ def _fill_split(tree, path, qual, filler):
             else:
                 raise Untranslatable("%s: count is not ceil(mask.sum() * ratio) [capped by the eligible cells - 1]: %s" % (qual, X.show(args[0])[:120]), None, path)
         else:
-            cnt = ("call", S("int"), (("bin", "*", ("call", ("attr", S("torch"), "count_nonzero"), (("call", ("attr", elig, "flatten"), (), ()),), ()), RATIO),), ())
-            if args[0] != cnt or args[4:] != (("attr", ME, "rng"),):
+            cnts = [("call", S("int"), (("bin", "*", ("call", ("attr", S("torch"), "count_nonzero"), (e_,), ()), RATIO),), ()) for e_ in (("call", ("attr", elig, "flatten"), (), ()), elig)]
+            rng_arg = args[4] if len(args) > 4 else None
+            if args[0] not in cnts or rng_arg != ("attr", ME, "rng"):
                 raise Untranslatable("%s: count / generator handed to uniform_fill outside subset: %s" % (qual, X.show(args[0])[:120]), None, path)
     for k in ("minus_acs", "region_cleared", "keep_in", "keep_tg", "input"):
         if k not in d:
